@@ -173,6 +173,8 @@ pub fn run_sim(check: &dyn Check, plan: &Value, run_seed: u64, mode: DecMode, tr
         w.trace = Some(Vec::new());
     }
     world::install(w);
+    // process-wide state of /repo that must not leak from one run into the next
+    anytls_rs::padding::PaddingFactory::verif_reset_default();
     anytls_simrand::install(world::splitmix64(run_seed ^ world::fnv("padding")));
     let horizon = check.horizon(plan);
     let rt = tokio::runtime::Builder::new_current_thread()
